@@ -131,10 +131,19 @@ class SchedLock:
 
     def __init__(self, path, *a, **kw):
         self.path = path
+        # filelock: timeout < 0 (the default) blocks for ever; a finite timeout lets a blocked acquire give up
+        t = kw.get('timeout', a[0] if a else -1)
+        self.finite = t is not None and t >= 0
 
     def acquire(self, *a, **kw):
-        S.point('acquire')
+        t = kw.get('timeout', a[0] if a else None)
+        finite = self.finite or (t is not None and t >= 0)
+        S.point('acquire-or-timeout' if finite else 'acquire')
         if S.me() is not None:
+            if finite and S.lock_owner is not None:
+                # scheduled while another caller holds the lock: the worst case of a finite timeout (the holder is slow)
+                import filelock
+                raise filelock.Timeout(str(self.path))
             S.lock_owner = S.me()
         return self
 
